@@ -719,3 +719,111 @@ variant('t-lease-writer-separate-packs', ['C02'], F,
                              self.time_to_live & MASK_31_BITS,
                              self.number_of_requests & MASK_31_BITS)""", """        middle = struct.pack('>I', self.time_to_live & MASK_31_BITS)
         middle += struct.pack('>I', self.number_of_requests & MASK_31_BITS)""", kind='twin')
+
+# ----------------------------------------------------------------------------------------------- C03
+FR = 'rsocket/frame_fragmenter.py'
+variant('b-frag-no-prefix-reserve', ['C03'], FR,
+        """        if frame_length_required:
+            self.first_fragment_size_bytes -= 3
+            self.next_frame_header_size -= 3
+""", """        if frame_length_required:
+            self.first_fragment_size_bytes -= 3
+""", ('C03.a', 'data-only'))
+variant('b-frag-header-table-wrong', ['C03'], F,
+        "    RequestStreamFrame: 10,\n    RequestChannelFrame: 10,", "    RequestStreamFrame: 10,\n    RequestChannelFrame: 6,",
+        ('C03.a', 'RequestChannelFrame'))
+variant('b-frag-budget-ignores-header', ['C03'], FR,
+        "        self.next_frame_header_size = fragment_size_bytes - 6",
+        "        self.next_frame_header_size = fragment_size_bytes", ('C03.a', 'data-only'))
+variant('b-frag-complete-on-every-fragment', ['C03'], F,
+        """    if fragment.is_last is None or fragment.is_last:
+        frame.sent_future = base_frame.sent_future
+        frame.flags_complete = base_frame.flags_complete
+""", """    frame.flags_complete = base_frame.flags_complete
+
+    if fragment.is_last is None or fragment.is_last:
+        frame.sent_future = base_frame.sent_future
+""", ('C03.b', 'new_frame_fragment'))
+variant('b-frag-follows-inverted', ['C03'], F,
+        "    frame.flags_follows = fragment.is_last is False", "    frame.flags_follows = fragment.is_last is True",
+        ('C03.b', 'new_frame_fragment'))
+variant('b-frag-request-n-not-copied', ['C03'], F,
+        """    if hasattr(base_frame, 'initial_request_n'):
+        frame.initial_request_n = base_frame.initial_request_n
+""", "", ('C03.b', 'new_frame_fragment'))
+variant('b-frag-all-payload', ['C03'], F,
+        """    if fragment.is_first:
+        frame = base_frame.__class__()
+    else:
+        frame = PayloadFrame()
+""", """    frame = PayloadFrame()
+""", ('C03.b', 'new_frame_fragment'))
+variant('b-reassembly-complete-payload-only', ['C03', 'C10'], 'rsocket/frame_fragment_cache.py',
+        """        current_frame_from_fragments.flags_complete = next_fragment.flags_complete
+
+        if isinstance(current_frame_from_fragments, PayloadFrame):
+            current_frame_from_fragments.flags_next = next_fragment.flags_next""",
+        """        if isinstance(current_frame_from_fragments, PayloadFrame):
+            current_frame_from_fragments.flags_complete = next_fragment.flags_complete
+            current_frame_from_fragments.flags_next = next_fragment.flags_next""",
+        ('C03.c', 'RequestChannelFrame'))
+variant('b-reassembly-entry-kept', ['C03'], 'rsocket/frame_fragment_cache.py',
+        """                frame = self._frame_fragment_builder(frame)
+                self._frames_by_stream_id.pop(frame.stream_id)""",
+        """                frame = self._frame_fragment_builder(frame)""", ('C03.c', 'final'))
+variant('b-reassembly-metadata-into-data', ['C03'], 'rsocket/frame_fragment_cache.py',
+        "            current_frame_from_fragments.metadata += next_fragment.metadata",
+        "            current_frame_from_fragments.metadata += next_fragment.data", ('C03.c', 'merge'))
+variant('b-frag-min-size-32', ['C03'], F, "MINIMUM_FRAGMENT_SIZE_BYTES = 64", "MINIMUM_FRAGMENT_SIZE_BYTES = 32",
+        ('C03.e', 'gate'))
+variant('b-frag-gate-not-called', ['C03'], B,
+        "        self._assert_valid_fragment_size(fragment_size_bytes)\n\n        self._handler_factory",
+        "        self._handler_factory", ('C03.e', 'gate'))
+variant('b-frag-last-by-short-read', ['C03'], FR,
+        "            is_last_fragment = self._data_read_length == self._data_length",
+        "            is_last_fragment = len(data_fragment) < self._get_next_fragment_body_size()",
+        ('C03.f', 'exhaustion'))
+variant('b-frag-payload-no-fragment-size', ['C03'], B,
+        """        self.send_frame(to_payload_frame(stream_id, payload, complete, is_next=is_next,
+                                         fragment_size_bytes=self.get_fragment_size_bytes()))""",
+        """        self.send_frame(to_payload_frame(stream_id, payload, complete, is_next=is_next))""",
+        ('C03.e', 'frame builders'))
+variant('t-frag-remaining-counter', ['C03'], FR,
+        "            is_last_fragment = self._data_read_length == self._data_length",
+        "            is_last_fragment = self._data_length == self._data_read_length", kind='twin')
+
+# ----------------------------------------------------------------------------------------------- C05
+variant('b-rotate-unconditionally', ['C05'], B,
+        """                if not self._send_queue.any_other(next_frame_source,
+                                                  lambda queued: queued.stream_id == stream_id):
+                    # cycle to next frame source in queue. frames of the same stream must not overtake
+                    # the remaining fragments, so the source stays at the head while any are queued.
+                    self._send_queue.put_nowait(self._send_queue.get_nowait())""",
+        """                self._send_queue.put_nowait(self._send_queue.get_nowait())""", ('C05.a', 're-insertion'))
+variant('b-rotate-guard-narrowed', ['C05'], B,
+        "lambda queued: queued.stream_id == stream_id):",
+        "lambda queued: queued.stream_id == stream_id and queued.sent_future is None):", ('C05.a', 're-insertion'))
+variant('b-rotate-polarity', ['C05'], B,
+        "                if not self._send_queue.any_other(next_frame_source,",
+        "                if self._send_queue.any_other(next_frame_source,", ('C05.a', 're-insertion'))
+variant('b-last-fragment-not-dequeued', ['C05'], B,
+        """                next_frame_source.get_next_fragment(
+                    transport.requires_length_header())  # workaround to clean-up generator.
+                self._send_queue.get_nowait()
+""", """                next_frame_source.get_next_fragment(
+                    transport.requires_length_header())  # workaround to clean-up generator.
+""", ('C05.e', 'queue balance'))
+variant('b-priority-reversed', ['C05'], B,
+        "        for item in items:\n            self._send_queue.put_nowait(item)",
+        "        for item in reversed(items):\n            self._send_queue.put_nowait(item)", ('C05.b', 'send_priority_frame'))
+variant('b-keepalive-bypasses-queue', ['C05'], 'rsocket/rsocket_client.py',
+        """                await asyncio.sleep(self._keep_alive_period.total_seconds())
+                self._send_new_keepalive()""", """                await asyncio.sleep(self._keep_alive_period.total_seconds())
+                transport = await self._current_transport()
+                await transport.send_frame(to_keepalive_frame(b''))""", ('C05.c', 'sender only'))
+variant('t-rotate-guard-helper-var', ['C05'], B,
+        """                if not self._send_queue.any_other(next_frame_source,
+                                                  lambda queued: queued.stream_id == stream_id):""",
+        """                same_stream_waiting = self._send_queue.any_other(
+                    next_frame_source, lambda queued: queued.stream_id == stream_id)
+                if not same_stream_waiting:""", kind='twin')
